@@ -34,7 +34,7 @@ def run(ctx):
     proof_broken = (not cres["ok"]) or bool(bad)
 
     harness = common.build_harness("c10_harness")
-    driver = tables.build_driver_s("C10")
+    driver = common.build_driver("C10")
     rng = common.Rng(ctx.seed, 10)
     wc = langselect.wbxml_cases(cur, rng)
     xc = langselect.xml_cases(cur, rng)
